@@ -97,9 +97,17 @@ var (
 	varNames                  []string // global id -> "pkg.name"
 )
 
+// resetOnly (first argument "-reset"): only the per-run re-initialisation of package-level
+// state is generated (C17 runs the real packages otherwise unmodified).
+var resetOnly bool
+
 func main() {
+	if len(os.Args) > 1 && os.Args[1] == "-reset" {
+		resetOnly = true
+		os.Args = append(os.Args[:1], os.Args[2:]...)
+	}
 	if len(os.Args) < 4 {
-		fmt.Fprintln(os.Stderr, "usage: rewrite <root> <out> <pkgdir>...")
+		fmt.Fprintln(os.Stderr, "usage: rewrite [-reset] <root> <out> <pkgdir>...")
 		os.Exit(2)
 	}
 	root, out := os.Args[1], os.Args[2]
@@ -111,7 +119,9 @@ func main() {
 			continue
 		}
 		pkgs = append(pkgs, p)
-		p.classify()
+		if !resetOnly {
+			p.classify()
+		}
 		for _, fc := range p.files {
 			p.rewriteFile(fc)
 			nfiles++
@@ -145,6 +155,14 @@ func main() {
 	names := ""
 	for _, n := range varNames {
 		names += fmt.Sprintf("%q, ", n)
+	}
+	if resetOnly {
+		src := fmt.Sprintf("// Code generated by vsim rewrite. DO NOT EDIT.\n\npackage %s\n\nimport (\n%s)\n\n// resetPackages re-initialises the package-level state of the packages under test.\nfunc resetPackages() {\n%s}\n", filepath.Base(filepath.Dir(out)), imports, calls)
+		if err := os.WriteFile(out, []byte(src), 0o644); err != nil {
+			die(err)
+		}
+		fmt.Printf("reset functions generated for %s\n", strings.Join(dirs, ","))
+		return
 	}
 	src := fmt.Sprintf(`// Code generated by vsim rewrite. DO NOT EDIT.
 
@@ -415,6 +433,29 @@ func (p *pkgCtx) singletons() {
 			}
 		}
 	}
+}
+
+// isPkgVarLoose is isPkgVar for contexts where classify has not run (reset-only mode): it
+// collects the package-level var names on first use.
+func (p *pkgCtx) isPkgVarLoose(id *ast.Ident) bool {
+	if len(p.vars) == 0 {
+		for _, fc := range p.files {
+			for _, d := range fc.f.Decls {
+				if gd, ok := d.(*ast.GenDecl); ok && gd.Tok == token.VAR {
+					for _, sp := range gd.Specs {
+						vs := sp.(*ast.ValueSpec)
+						p.specs[vs] = true
+						for _, n := range vs.Names {
+							if n.Name != "_" {
+								p.vars[n.Name] = true
+							}
+						}
+					}
+				}
+			}
+		}
+	}
+	return p.isPkgVar(id)
 }
 
 func (p *pkgCtx) isPkgVar(id *ast.Ident) bool {
@@ -893,6 +934,9 @@ func (p *pkgCtx) rewriteFile(fc *fileCtx) {
 	f := fc.f
 	// 1. imports
 	for _, imp := range f.Imports {
+		if resetOnly {
+			break
+		}
 		ip, _ := strconv.Unquote(imp.Path.Value)
 		s, ok := subst[ip]
 		if !ok {
@@ -911,7 +955,7 @@ func (p *pkgCtx) rewriteFile(fc *fileCtx) {
 		}
 	}
 	// 2. sync selectors without a happens-before model
-	if fc.sync != "" {
+	if fc.sync != "" && !resetOnly {
 		modelled := map[string]bool{"Mutex": true, "RWMutex": true, "Once": true, "WaitGroup": true, "Cond": true, "NewCond": true, "Locker": true, "OnceFunc": true, "Pool": true, "Map": true}
 		ast.Inspect(f, func(n ast.Node) bool {
 			if s, ok := n.(*ast.SelectorExpr); ok {
@@ -923,7 +967,9 @@ func (p *pkgCtx) rewriteFile(fc *fileCtx) {
 		})
 	}
 	// 3. channel types, make, close, receive, send, go, select (everywhere in the file)
-	p.rewriteConcurrency(fc)
+	if !resetOnly {
+		p.rewriteConcurrency(fc)
+	}
 	// 4. hooks and init renaming, function by function
 	inits := 0
 	for _, d := range f.Decls {
@@ -943,7 +989,17 @@ func (p *pkgCtx) rewriteFile(fc *fileCtx) {
 		}
 	}
 	// 5. reset function for this file's package-level vars
-	var resets []string
+	var resets, depResets []string
+	dependsOnVar := func(n ast.Node) bool {
+		dep := false
+		ast.Inspect(n, func(x ast.Node) bool {
+			if id, ok := x.(*ast.Ident); ok && p.isPkgVarLoose(id) {
+				dep = true
+			}
+			return !dep
+		})
+		return dep
+	}
 	for _, d := range f.Decls {
 		gd, ok := d.(*ast.GenDecl)
 		if !ok || gd.Tok != token.VAR {
@@ -967,7 +1023,15 @@ func (p *pkgCtx) rewriteFile(fc *fileCtx) {
 				for _, v := range vs.Values {
 					vals = append(vals, p.edited(fc, v))
 				}
-				resets = append(resets, strings.Join(names, ", ")+" = "+strings.Join(vals, ", "))
+				line := strings.Join(names, ", ") + " = " + strings.Join(vals, ", ")
+				resets = append(resets, line)
+				for _, v := range vs.Values {
+					if dependsOnVar(v) {
+						// initialised from other package-level variables: run again after them
+						depResets = append(depResets, line)
+						break
+					}
+				}
 			} else if vs.Type != nil {
 				ty := p.edited(fc, vs.Type)
 				for _, n := range names {
@@ -982,7 +1046,7 @@ func (p *pkgCtx) rewriteFile(fc *fileCtx) {
 		fn := fmt.Sprintf("vsimReset%d", len(p.resetFns))
 		// var resets come before init re-runs of the same file
 		p.resetFns = append([]string{fn}, p.resetFns...)
-		fc.edits = append(fc.edits, edit{len(fc.src), len(fc.src), "\n// " + fn + " re-executes the package-level var initialisers of this file (generated by vsim rewrite).\nfunc " + fn + "() {\n\t" + strings.Join(resets, "\n\t") + "\n}\n", 9})
+		fc.edits = append(fc.edits, edit{len(fc.src), len(fc.src), "\n// " + fn + " re-executes the package-level var initialisers of this file (generated by vsim rewrite);\n// on later passes only those that depend on other package-level variables.\nfunc " + fn + "(pass int) {\n\tif pass > 0 {\n\t\t" + strings.Join(append(depResets, "return"), "\n\t\t") + "\n\t}\n\t" + strings.Join(resets, "\n\t") + "\n}\n", 9})
 	}
 	// 6. extra imports right after the package clause
 	extra := ""
@@ -1316,7 +1380,7 @@ func (p *pkgCtx) writeReset(root string) {
 	sort.Strings(inits)
 	body += "\tfor pass := 0; pass < 3; pass++ {\n"
 	for _, fn := range vars {
-		body += "\t\t" + fn + "()\n"
+		body += "\t\t" + fn + "(pass)\n"
 	}
 	body += "\t}\n"
 	for _, fn := range inits {
